@@ -47,6 +47,8 @@ def conformance(tier):
         # R mode (bounded, never counted as proved): the documented meaning, computed from the arguments given to the
         # constructors, against subclasscheck / isinstance of the real code over small type terms
         dict(name="native:c13", argv=["suite.py", "c13_search"], violation_on_fail=True),
+        # a method declared on the plain class `type` (bare, as a string, Annotated) applies to class-valued arguments
+        dict(name="native:c14", argv=["c14_types.py"], violation_on_fail=True),
     ]
     return steps
 
